@@ -181,12 +181,18 @@ pub struct Choices {
     pub tags: String,
     pub overlap: bool,
     pub chunk: usize,
+    /// 0: nothing after the compressed table data, 1: extended metadata block, 2: metadata + private data
+    pub meta: u8,
+    /// per member of a collection: glyf/loca transform version and wanted hmtx flags (empty: `glyf` / `hmtx` for all)
+    pub fgt: Vec<u8>,
+    pub fhf: Vec<u8>,
 }
 
 impl Choices {
     pub fn to_json(&self) -> serde_json::Value {
         serde_json::json!({"glyf": self.glyf, "hmtx": self.hmtx, "trip": self.trip, "u16": self.u16p, "bbox": self.bbox,
-            "order": self.order, "tags": self.tags, "overlap": self.overlap as u8, "chunk": self.chunk})
+            "order": self.order, "tags": self.tags, "overlap": self.overlap as u8, "chunk": self.chunk, "meta": self.meta,
+            "fgt": self.fgt, "fhf": self.fhf})
     }
 }
 
@@ -267,19 +273,30 @@ pub fn bitmap_bytes(bits: &[bool]) -> Vec<u8> {
     bm
 }
 
+/// overlapSimpleBitmap: one bit per glyph (glyph 0 = most significant bit of the first byte), padded to whole bytes.
+pub fn overlap_bytes(bits: &[bool]) -> Vec<u8> {
+    let mut bm = vec![0u8; (bits.len() + 7) / 8];
+    for (g, &b) in bits.iter().enumerate() {
+        if b {
+            bm[g / 8] |= 0x80 >> (g % 8);
+        }
+    }
+    bm
+}
+
 /// reserved, optionFlags, numGlyphs, indexFormat, seven stream sizes, streams, optional
-/// overlapSimpleBitmap (all zero: no glyph is marked).
-pub fn glyf_table_bytes(per: &[GlyphStreams], index_format: u16, overlap: bool) -> Vec<u8> {
+/// overlapSimpleBitmap (`overlap`: which glyphs carry OVERLAP_SIMPLE on their first flag in the source).
+pub fn glyf_table_bytes(per: &[GlyphStreams], index_format: u16, overlap: Option<&[bool]>) -> Vec<u8> {
     let cat = |f: fn(&GlyphStreams) -> &Vec<u8>| -> Vec<u8> { per.iter().flat_map(|s| f(s).iter().copied()).collect() };
     let (nc, np, fl, gl, co, bb, ins) = (cat(|s| &s.nc), cat(|s| &s.np), cat(|s| &s.fl), cat(|s| &s.gl), cat(|s| &s.co), cat(|s| &s.bb), cat(|s| &s.ins));
     let bm = bitmap_bytes(&per.iter().map(|s| s.bit).collect::<Vec<_>>());
     let mut w = W::new();
-    w.u16(0).u16(overlap as u16).u16(per.len() as u16).u16(index_format);
+    w.u16(0).u16(overlap.is_some() as u16).u16(per.len() as u16).u16(index_format);
     w.u32(nc.len() as u32).u32(np.len() as u32).u32(fl.len() as u32).u32(gl.len() as u32).u32(co.len() as u32);
     w.u32((bm.len() + bb.len()) as u32).u32(ins.len() as u32);
     w.bytes(&nc).bytes(&np).bytes(&fl).bytes(&gl).bytes(&co).bytes(&bm).bytes(&bb).bytes(&ins);
-    if overlap {
-        w.bytes(&vec![0u8; bm.len()]);
+    if let Some(bits) = overlap {
+        w.bytes(&overlap_bytes(bits));
     }
     w.done()
 }
@@ -360,6 +377,35 @@ pub fn collection_bytes(version: u32, fonts: &[CollFont], policy: &str, rng: &mu
 
 /// header (48 bytes) + directory + collection directory + compressed block, padded to 4 bytes
 pub fn file_bytes(flavor: u32, num_tables: u16, dir: &[u8], coll: &[u8], compressed: &[u8], total_sfnt_size: u32) -> Vec<u8> {
+    file_bytes_meta(flavor, num_tables, dir, coll, compressed, total_sfnt_size, 0)
+}
+
+pub const META_XML: &str = "<?xml version=\"1.0\" encoding=\"UTF-8\"?><metadata version=\"1.0\"><uniqueid id=\"verif.c11\"/></metadata>";
+pub const PRIVATE_DATA: [u8; 7] = [0xC1, 0x10, 0xFF, 0x00, 0x80, 0x7F, 0x01];
+
+/// The same with an extended metadata block (`meta` >= 1: brotli-compressed XML at a 4-byte boundary after the
+/// compressed table data) and a private data block (`meta` = 2: at the next 4-byte boundary, last in the file).
+pub fn file_bytes_meta(flavor: u32, num_tables: u16, dir: &[u8], coll: &[u8], compressed: &[u8], total_sfnt_size: u32, meta: u8) -> Vec<u8> {
+    if meta > 0 {
+        let pad4 = |x: usize| (x + 3) & !3;
+        let meta_off = pad4(48 + dir.len() + coll.len() + compressed.len());
+        let mblock = brotli::stored(META_XML.as_bytes(), 50);
+        let priv_off = if meta == 2 { pad4(meta_off + mblock.len()) } else { 0 };
+        let total = if meta == 2 { priv_off + PRIVATE_DATA.len() } else { meta_off + mblock.len() };
+        let mut w = W::new();
+        w.tag("wOF2").u32(flavor).u32(total as u32).u16(num_tables).u16(0).u32(total_sfnt_size).u32(compressed.len() as u32);
+        w.u16(1).u16(0);
+        w.u32(meta_off as u32).u32(mblock.len() as u32).u32(META_XML.len() as u32);
+        w.u32(priv_off as u32).u32(if meta == 2 { PRIVATE_DATA.len() as u32 } else { 0 });
+        w.bytes(dir).bytes(coll).bytes(compressed);
+        w.pad4();
+        w.bytes(&mblock);
+        if meta == 2 {
+            w.pad4();
+            w.bytes(&PRIVATE_DATA);
+        }
+        return w.done();
+    }
     let mut w = W::new();
     let len = 48 + dir.len() + coll.len() + compressed.len();
     let padded = (len + 3) & !3;
@@ -402,6 +448,8 @@ pub struct FontInfo {
     pub per: Vec<GlyphStreams>,
     pub xglyf: Vec<u8>,
     pub xhmtx: Vec<u8>,
+    /// glyphs whose first flag carries OVERLAP_SIMPLE in the source glyf
+    pub overlap_bits: Vec<bool>,
     pub adv: Vec<u16>,
     pub lsb: Vec<i16>,
     /// tables as a decoder must reproduce them (head with bit 11 set when glyf is transformed)
@@ -428,7 +476,9 @@ struct Prepared {
     tabs: Vec<(u32, u8, u32, Option<u32>, Vec<u8>, Vec<u8>)>,
 }
 
-fn prepare(src: &SrcFont, ch: &Choices, rng: &mut StdRng) -> Prepared {
+fn prepare(src: &SrcFont, ch: &Choices, member: usize, rng: &mut StdRng) -> Prepared {
+    let eff_glyf = ch.fgt.get(member).copied().unwrap_or(ch.glyf);
+    let eff_hmtx = ch.fhf.get(member).copied().unwrap_or(ch.hmtx);
     let mut info = FontInfo::default();
     let mut xglyf: Option<Vec<u8>> = None;
     let mut xhmtx: Option<Vec<u8>> = None;
@@ -447,6 +497,7 @@ fn prepare(src: &SrcFont, ch: &Choices, rng: &mut StdRng) -> Prepared {
             if !rd.monotone || !rd.within {
                 return Err("loca not monotone / outside glyf".into());
             }
+            info.overlap_bits = glyph::overlap_bits(glyf, loca, long, n)?;
             let mut recs = Vec::with_capacity(n);
             for (g, r) in rd.glyphs.into_iter().enumerate() {
                 recs.push(r.map_err(|e| format!("glyph {}: {}", g, e))?);
@@ -465,17 +516,17 @@ fn prepare(src: &SrcFont, ch: &Choices, rng: &mut StdRng) -> Prepared {
         match r {
             Err(e) => info.note = format!("glyf not transformable: {}", e),
             Ok(()) => {
-                if ch.glyf == 0 {
+                if eff_glyf == 0 {
                     let head = src.get("head").unwrap();
                     let fmt = be16(head, 50).unwrap();
                     info.per = info.recs.iter().map(|g| encode_glyph_streams(g, ch, rng)).collect();
-                    let t = glyf_table_bytes(&info.per, fmt, ch.overlap);
+                    let t = glyf_table_bytes(&info.per, fmt, if ch.overlap { Some(&info.overlap_bits[..]) } else { None });
                     info.xglyf = t.clone();
                     xglyf = Some(t);
                     info.glyf_transformed = true;
                     // hmtx transform: only the bits whose arrays really are redundant
                     let hmtx_len_exact = src.get("hmtx").map(|h| info.nhm > 0 && h.len() == 4 * info.nhm + 2 * (info.n - info.nhm)).unwrap_or(false);
-                    if ch.hmtx != 0 && hmtx_len_exact {
+                    if eff_hmtx != 0 && hmtx_len_exact {
                         let xm: Vec<i16> = info.recs.iter().map(|g| g.x_min()).collect();
                         let mut allowed = 0u8;
                         if (0..info.nhm).all(|g| info.lsb[g] == xm[g]) {
@@ -484,7 +535,7 @@ fn prepare(src: &SrcFont, ch: &Choices, rng: &mut StdRng) -> Prepared {
                         if (info.nhm..info.n).all(|g| info.lsb[g] == xm[g]) {
                             allowed |= 2;
                         }
-                        let flags = ch.hmtx & allowed;
+                        let flags = eff_hmtx & allowed;
                         if flags != 0 {
                             let t = enc_hmtx(flags, info.n, info.nhm, &info.adv, &info.lsb);
                             info.hmtx_flags = flags;
@@ -529,7 +580,7 @@ fn prepare(src: &SrcFont, ch: &Choices, rng: &mut StdRng) -> Prepared {
 /// Encode one font, or several as a collection (tables with identical content are shared; a
 /// glyf table and its loca are one unit and always adjacent, glyf first).
 pub fn encode_woff2(fonts: &[SrcFont], ch: &Choices, rng: &mut StdRng) -> Encoded {
-    let prepared: Vec<Prepared> = fonts.iter().map(|f| prepare(f, ch, rng)).collect();
+    let prepared: Vec<Prepared> = fonts.iter().enumerate().map(|(k, f)| prepare(f, ch, k, rng)).collect();
     let glyf_t = tag_u32("glyf");
     let loca_t = tag_u32("loca");
     // units: Vec of member tables (stored form + original bytes as identity)
@@ -586,7 +637,7 @@ pub fn encode_woff2(fonts: &[SrcFont], ch: &Choices, rng: &mut StdRng) -> Encode
             let special = matches!(tg.as_str(), "glyf" | "loca" | "hmtx");
             tables.push(DirTable {
                 tag: t.0,
-                explicit: ch.tags == "explicit" && !special,
+                explicit: (ch.tags == "explicit" && !special) || ch.tags == "explicitall",
                 ver: t.1,
                 orig_len: t.2,
                 tlen: t.3,
@@ -630,7 +681,7 @@ pub fn encode_woff2(fonts: &[SrcFont], ch: &Choices, rng: &mut StdRng) -> Encode
         total += pad4(t.orig_len as usize);
     }
     let flavor = if is_collection { tag_u32("ttcf") } else { fonts[0].flavor };
-    let bytes = file_bytes(flavor, tables.len() as u16, &dir, &coll, &compressed, total as u32);
+    let bytes = file_bytes_meta(flavor, tables.len() as u16, &dir, &coll, &compressed, total as u32, ch.meta);
     Encoded {
         bytes,
         num_tables: tables.len(),
